@@ -196,6 +196,85 @@ def run_verus_unit(unit, repo, workdir, tier, seed):
     }
 
 
+
+def run_units(pid, spec, repo, workdir, tier, seed):
+    from concurrent.futures import ThreadPoolExecutor
+    results, undecided = [], []
+
+    def one(unit):
+        try:
+            return ('ok', run_verus_unit(unit, repo, workdir, tier, seed))
+        except Undecided as e:
+            return ('undecided', str(e))
+        except subprocess.TimeoutExpired:
+            return ('undecided', 'unit %s: verus timed out' % unit)
+
+    with ThreadPoolExecutor(max_workers=8) as pool:
+        for kind, val in pool.map(one, spec['verus_units']):
+            if kind == 'ok':
+                results.append(val)
+            else:
+                undecided.append(val)
+    if spec.get('kani'):
+        try:
+            results.append(kanirun.run(pid, spec['kani'], repo, workdir, tier, seed))
+        except kanirun.Undecided as e:
+            undecided.append(str(e))
+    return results, undecided
+
+
+def classify(pid, spec, results, known_for):
+    only = spec.get('only_safety', False)
+    clause_filter = spec.get('clause_prefixes')
+    violations, known_hits, ignored = [], [], []
+    for r in results:
+        for f in r['failures']:
+            tags = re.findall(r'\bc\d\d\b', f['clause'].split(':')[0]) if not f['clause'].startswith('body:') else []
+            pref = (bool(clause_filter) and any(p in f['clause'] for p in clause_filter)) or (not tags and not f['clause'].startswith('body:'))
+            if only and not (f.get('safety') or pref):
+                ignored.append(f['obligation'])
+                continue
+            if not only and clause_filter and not f['clause'].startswith('body:') and not pref:
+                ignored.append(f['obligation'])
+                continue
+            if f['obligation'] in known_for:
+                known_hits.append((f, known_for[f['obligation']]))
+            else:
+                violations.append(f)
+    return violations, known_hits, ignored
+
+
+def self_validate(pid, spec, repo, workdir, known_for, seed):
+    """thorough tier: every seeded change kept for this property is applied to a scratch copy of /repo and the units are
+    run against it; the verdicts go into the evidence (no influence on the exit code)."""
+    out = []
+    sd = os.path.join(HERE, 'seeded')
+    if not os.path.isdir(sd):
+        return out
+    for d in sorted(os.listdir(sd)):
+        dd = os.path.join(sd, d)
+        mp = os.path.join(dd, 'meta.json')
+        if not os.path.exists(mp) or json.load(open(mp)).get('property') != pid:
+            continue
+        scratch = os.path.join(workdir, 'seed_' + d)
+        subprocess.run(['rsync', '-a', '--exclude', 'target', '--exclude', '.git', repo.rstrip('/') + '/', scratch + '/'], check=True)
+        patch = os.path.join(dd, 'patch_ported.diff') if os.path.exists(os.path.join(dd, 'patch_ported.diff')) else os.path.join(dd, 'patch.diff')
+        ap = subprocess.run(['patch', '-p1', '-s', '-i', patch], cwd=scratch, capture_output=True, text=True)
+        if ap.returncode != 0:
+            out.append({'seed': d, 'verdict': 'patch does not apply to the current tree'})
+            shutil.rmtree(scratch, ignore_errors=True)
+            continue
+        wd2 = os.path.join(workdir, 'wd_' + d)
+        os.makedirs(wd2, exist_ok=True)
+        res, und = run_units(pid, spec, scratch, wd2, 'quick', seed)
+        viol, _k, _i = classify(pid, spec, res, known_for)
+        verdict = 'VIOLATION' if viol else ('UNDECIDED' if und else 'not reported')
+        out.append({'seed': d, 'verdict': verdict, 'obligations': [v['obligation'] for v in viol][:4], 'undecided': [u[:200] for u in und][:2]})
+        shutil.rmtree(scratch, ignore_errors=True)
+        shutil.rmtree(wd2, ignore_errors=True)
+    return out
+
+
 def load_known():
     known, fixed = [], []
     p = os.path.join(HERE, 'known_findings.txt')
@@ -228,55 +307,20 @@ def main():
     workdir = tempfile.mkdtemp(prefix='sqlgrep_verif_%s_' % pid)
     results = []
     undecided = []
+    selfval = []
+    known, fixed = load_known()
+    known_for = {k['obligation']: k for k in known if pid in k['property'].split(',')}
     try:
-        from concurrent.futures import ThreadPoolExecutor
-
-        def one(unit):
-            try:
-                return ('ok', run_verus_unit(unit, a.repo, workdir, a.tier, seed))
-            except Undecided as e:
-                return ('undecided', str(e))
-            except subprocess.TimeoutExpired:
-                return ('undecided', 'unit %s: verus timed out' % unit)
-
-        with ThreadPoolExecutor(max_workers=8) as pool:
-            for kind, val in pool.map(one, spec['verus_units']):
-                if kind == 'ok':
-                    results.append(val)
-                else:
-                    undecided.append(val)
-        kres = None
-        if spec.get('kani'):
-            try:
-                kres = kanirun.run(pid, spec['kani'], a.repo, workdir, a.tier, seed)
-                results.append(kres)
-            except kanirun.Undecided as e:
-                undecided.append(str(e))
+        results, undecided = run_units(pid, spec, a.repo, workdir, a.tier, seed)
+        if a.tier == 'thorough':
+            selfval = self_validate(pid, spec, a.repo, workdir, known_for, seed)
     finally:
         if not a.keep:
             shutil.rmtree(workdir, ignore_errors=True)
 
-    known, fixed = load_known()
-    known_for = {k['obligation']: k for k in known if pid in k['property'].split(',')}
     only = spec.get('only_safety', False)
     clause_filter = spec.get('clause_prefixes')  # None = all
-    violations, known_hits, ignored = [], [], []
-    for r in results:
-        for f in r['failures']:
-            tags = re.findall(r'\bc\d\d\b', f['clause'].split(':')[0]) if not f['clause'].startswith('body:') else []
-            # a clause tagged with property ids counts for those properties; an untagged clause (helper contract that
-            # everything in the unit rests on) counts for every property served by the unit
-            pref = (bool(clause_filter) and any(p in f['clause'] for p in clause_filter)) or (not tags and not f['clause'].startswith('body:'))
-            if only and not (f.get('safety') or pref):
-                ignored.append(f['obligation'])
-                continue
-            if not only and clause_filter and not f['clause'].startswith('body:') and not pref:
-                ignored.append(f['obligation'])
-                continue
-            if f['obligation'] in known_for:
-                known_hits.append((f, known_for[f['obligation']]))
-            else:
-                violations.append(f)
+    violations, known_hits, ignored = classify(pid, spec, results, known_for)
 
     # ---------------------------------------------------------------- evidence
     fns, samples, trusted, bounded_units = [], [], [], []
@@ -351,6 +395,7 @@ def main():
             'known_findings_hit': [k['obligation'] for _f, k in known_hits],
             'undecided': undecided,
             'ignored_for_this_property': sorted(set(ignored)),
+            'seeded_self_validation': selfval,
         },
         'assumptions': spec.get('assumptions', []) + trusted,
         'wall_s': round(wall, 2),
